@@ -5,5 +5,6 @@ CONSTANTS
   MaxLen = 40
   IdxSlack = 2
   MaxPairs = 0
+  LitSizes = {}
 INVARIANTS TypeOK Emit60
 CHECK_DEADLOCK FALSE
